@@ -139,12 +139,18 @@ class SimA:
             v = self._apply(ev, w, c, st)
         finally:
             self.steps.before = None
+        side = False
         if v is None:
             v = self._killed_states_consistent(snaps, ev, st)
-        if v is None:
-            v = self._wire_never_ahead_of_journal(snaps, wire_at, wire0, ev, st)
-        if v is None:
-            v = self._inbound_counter_never_behind(snaps, in_before, ev, st)
+            if v is None:
+                v = self._wire_never_ahead_of_journal(snaps, wire_at, wire0, ev, st)
+            if v is None:
+                v = self._inbound_counter_never_behind(snaps, in_before, ev, st)
+            side = v is not None
+        if side:
+            # verdict about what a kill at an intermediate step would have left behind: the live run is intact, the
+            # history is explored further (otherwise an open finding of this kind would hide everything behind the event)
+            v = dict(v, **{"continue": True})
         for p_ in snaps:
             for q_ in (p_, p_ + "-journal"):
                 if os.path.exists(q_):
